@@ -106,6 +106,14 @@ INPUTS = {
     "orlong": ["ab 01 ab!", "ab 01", "ab!", "01", "ab 01 0"],
     "shared": ["0,1;1,0", "0,1", "1", "0,1;", "x"],
 }
+# different inputs of equal length with common prefixes (a key that identifies the input only partly collides)
+TWINS = {
+    "arith": ["1+2*3", "1*2+3", "(1+2", "(1)+2", "1+2+3"],
+    "prefix": ["ab 01 y", "ab 01 x", "ab 10 y", "ba 01 y"],
+    "named": ["ab 01 ba", "ab 01 01", "ab ab ba"],
+    "orlong": ["ab 01 ab!", "ab 01 ab?", "ab 01 01!"],
+    "shared": ["0,1;1,0", "0,1;1,x", "0,1,1,0"],
+}
 SCAN_INPUTS = {
     "arith": ["1+2 x 3", "x (1) y"],
     "prefix": ["ab 01 y ab", "z ab"],
@@ -256,6 +264,10 @@ class Case:
     def check_outcomes(self, ctx, outs, status, how, stats):
         """the oracle: per-thread outcome == serial outcome, no internal error, no deadlock"""
         bad = None
+        if status == "bad-sched":
+            # the model's schedule is not a schedule of this code: a correspondence matter, not an outcome
+            stats["bad-sched"] = stats.get("bad-sched", 0) + 1
+            return None
         if status == "deadlock":
             bad = "deadlock: some thread can never acquire a lock"
         else:
@@ -346,9 +358,12 @@ def case_list(ctx, pp):
             k = ctx.budget(2, 5)
             for _ in range(k):
                 n = rng.choice([2, 2, 3])
-                if rng.random() < 0.3:
+                r = rng.random()
+                if r < 0.25:
                     s = rng.choice(ins)
                     inputs = [s] * n
+                elif r < 0.6:
+                    inputs = rng.sample(TWINS[gname], n)
                 else:
                     inputs = [rng.choice(ins) for _ in range(n)]
                 out.append((mode, gname, "parse", inputs))
@@ -397,8 +412,10 @@ def leg_lr_witness(ctx, pp):
                 lab = next((l for s, l in labels.items() if o == f"res {[s]!r} []"), 99)
                 res.append([Sym("done"), lab + 1])
         # the model stops with the schedule; the real threads run on to completion afterwards
+        # (in LR mode packrat_cache is the NullCache: `cclear` is a no-op whose position inside reset_cache is
+        # irrelevant, so it is dropped from both traces)
         n = len(sched)
-        impl_s = dumps([Sym("ok"), tr[:n], None]).replace(" None)", ")")
+        impl_s = dumps([Sym("ok"), [e for e in tr[:n] if e[1] != "cclear"], None]).replace(" None)", ")")
         cases.append({"witness": name, "inputs": inputs, "sched": sched})
         lines.append(dumps(Sym("lr-run")) + " " + dumps([Sym("inputs")] + [labels[s] for s in inputs]) + " " +
                      dumps([Sym("sched")] + sched))
@@ -408,7 +425,7 @@ def leg_lr_witness(ctx, pp):
     for m in model:
         try:
             v = loads(m)
-            model_tr.append(dumps([v[0], v[1]]))
+            model_tr.append(dumps([v[0], [e for e in v[1] if e[1] != "cclear"]]))
         except Exception:
             model_tr.append(m)
     ctx.correspond("lr-witness-trace", cases, lines, [i[0] for i in impl], model_outputs=model_tr,
@@ -575,7 +592,7 @@ def run(ctx):
     cases = leg_forced(ctx, pp, case_list(ctx, pp))
     leg_lr_same_input(ctx, pp)
     small = [c for c in cases if c.mode in (("packrat", 0), ("packrat", 1), ("packrat", 2), ("off",))]
-    leg_fine(ctx, pp, small[:: max(1, len(small) // ctx.budget(24, 120))], ctx.budget(6, 30), "base")
+    leg_fine(ctx, pp, small[:: max(1, len(small) // ctx.budget(36, 120))], ctx.budget(10, 30), "base")
     leg_stress(ctx, pp, cases[:: max(1, len(cases) // ctx.budget(16, 80))], ctx.budget(2, 6), "base")
     if ctx.broken and not ctx.fail_inputs:
         # a proof obligation / trace validation / correspondence broke: search harder for a failing input
@@ -607,4 +624,6 @@ def replay(data):
         outs, status = ses.run_controlled(c.fns, sched=list(case["sched"]))
     print("serial  :", c.serial)
     print("threads :", outs, status)
+    if status == "bad-sched":
+        return False
     return status == "deadlock" or outs != c.serial
